@@ -118,6 +118,21 @@ class Interp:
             return SliceRef(bv.seq, bv.lo + lo, bv.lo + hi)
         raise Unmodelled("place kind " + k)
 
+    def resolve_converted(self, fr, place, cell, v):
+        """an error converted into a generic `E: From<X>`: apply the From impl now that the concrete type is known"""
+        t = self.place_ty(fr, place)
+        inner = v.payload
+        while isinstance(inner, Opaque) and inner.tag == "ConvertedError": inner = inner.payload
+        name = inner.d.name if isinstance(inner, EnumV) else (inner.name.split("::")[-1] if isinstance(inner, Agg) and inner.name else None)
+        if t is None or t.kind != "adt" or name is None: raise Unmodelled("cannot resolve a generically converted error in " + fr.fn.name)
+        if t.last() == name:
+            cell.v = inner
+            return inner
+        f = self.P._find_trait_method(t.name, f"From<{name}>", "from", fr.fn.crate)
+        if f is None: raise Unmodelled(f"error conversion {name} -> {t!r} not found in {fr.fn.name}")
+        cell.v = self.run_fn(f, [inner])
+        return cell.v
+
     def _len_of(self, b):
         bv = b.v if isinstance(b, Cell) else b
         if isinstance(bv, Seq): return len(bv.cells)
@@ -268,6 +283,8 @@ class Interp:
         if k == "discr":
             c = self.place(fr, rv[1])
             v = c.v
+            if isinstance(v, Opaque) and v.tag == "ConvertedError":
+                v = self.resolve_converted(fr, rv[1], c, v)
             if isinstance(v, EnumV): return Int("isize", v.d.discr[v.variant])
             raise Unmodelled(f"discriminant of {type(v).__name__} in {fr.fn.name}")
         if k == "len":
@@ -438,6 +455,12 @@ class Interp:
         v = c.v if isinstance(c, Cell) else c
         if isinstance(v, Ptr) and v.kind in ("arc", "rc") and isinstance(v.rc.v, int):
             v.rc.v -= 1
+        if isinstance(v, Opaque) and v.tag == "MutexGuard":
+            m = getattr(self, "guards", {}).get(id(v))
+            if m is not None and m.cells[1].v is True:
+                m.cells[1].v = False
+                log = getattr(self, "event_log", None)
+                if log is not None: log.append(("unlock", id(m)))
         hook = getattr(self, "drop_hook", None)
         if hook: hook(v)
 
